@@ -34,6 +34,7 @@ import TxdbusModel.Proofs.Auth.ClientFraming
 import TxdbusModel.Proofs.Auth.ClientCompleteBytes
 import TxdbusModel.Auth.ClientOrig
 import TxdbusModel.Proofs.Auth.Handshake2Inv
+import TxdbusModel.Proofs.Auth.Handshake2Keyring
 
 namespace Txdbus.AuthClient
 
@@ -454,6 +455,26 @@ theorem own_bus_mechanism (cfg : Cfg) :
   · rw [expectedMech_1 h0 h1]; rfl
   · rw [expectedMech_2 h0 h1]; rfl
 
+/-- "The keyring is usable", SUFFICIENT condition in terms of passwd, directories and files (`SharedKeyring`): the
+client's non-empty ASCII user name resolves (by name or as a decimal uid) to a passwd entry whose keyring directory
+the bus accepts (absent - it creates it - or without group/other bits); the client's home is that entry's home and the
+directory passes the client's own `os.stat` tests (mode & 0o066 = 0, owned by its euid; for a directory the bus
+creates: the bus is not root, or the entry's uid is the client's euid); the context name is one clean ASCII token; the
+unexpired cookies already in the file are blank-free tokens; SHA-1 digests have 20 bytes and `os.urandom(24)` is not
+empty.  Then the mechanism of the completed handshake is DBUS_COOKIE_SHA1 unless EXTERNAL is available. -/
+theorem own_bus_cookie_when_shared_keyring (cfg : Cfg) (e : AuthServer.PwEnt) (h : SharedKeyring cfg e) :
+    keyringUsable cfg = true ∧ (credsOk cfg = false → mechAt (expectedMech cfg) = b!"DBUS_COOKIE_SHA1") := by
+  have hk := keyringUsable_of_shared_keyring cfg e h
+  exact ⟨hk, fun h0 => (own_bus_mechanism cfg).2.1 h0 hk⟩
+
+/-- NECESSARY for "the keyring is usable" (bus side): without a non-empty ASCII user name that resolves to a passwd
+entry whose keyring directory is absent or good, DBUS_COOKIE_SHA1 is not the mechanism (the handshake ends with
+EXTERNAL or ANONYMOUS). -/
+theorem own_bus_cookie_requires (cfg : Cfg) (h : keyringUsable cfg = true) :
+    cfg.user ≠ [] ∧ AuthServer.isAscii cfg.user = true ∧
+    ∃ e, busUserEntry cfg = some e ∧ AuthServer.lookupDir cfg.w0 e.home ≠ .bad :=
+  keyringUsable_requires cfg h
+
 /-! ### the hypotheses are satisfiable; the three mechanisms occur -/
 
 namespace Example
@@ -490,6 +511,22 @@ example : expectedMech (cfg true (some 0) []) = 0 := by decide +kernel
 the hypotheses hold -/
 example : expectedMech (cfg true none []) = 1 ∧ Hyp (cfg true none []) :=
   ⟨by decide +kernel, hyp _ _ _ (by decide +kernel)⟩
+
+/-- `SharedKeyring` is satisfiable: root's keyring directory does not exist yet, the bus (root) creates it for
+uid 0 = the client's euid -/
+example : SharedKeyring (cfg true none []) ⟨b!"root", 0, 0, b!"/root"⟩ where
+  user0 := by decide
+  userAscii := by decide
+  entry := by rfl
+  dir := by decide +kernel
+  home := rfl
+  stat := by decide +kernel
+  ctx := ⟨⟨by decide, by decide⟩, by decide, by decide⟩
+  sha := sha_length
+  rnd := fun k => by show List.replicate 24 (UInt8.ofNat (k + 65)) ≠ []; simp
+  old := fun c hc => by
+    have : AuthServer.getCookies (cfg true none []).w0 (b!"/root") = [] := by decide +kernel
+    rw [this] at hc; cases hc
 
 /-- no credentials, the keyring directory is not usable: ANONYMOUS; the hypotheses hold -/
 example : expectedMech (cfg false none [(b!"/root", .bad)]) = 2 ∧ Hyp (cfg false none [(b!"/root", .bad)]) :=
@@ -538,5 +575,7 @@ end Txdbus.Handshake2
 #print axioms Txdbus.Handshake2.own_bus_no_early_binary
 #print axioms Txdbus.Handshake2.own_bus_reachable_safe
 #print axioms Txdbus.Handshake2.own_bus_mechanism
+#print axioms Txdbus.Handshake2.own_bus_cookie_when_shared_keyring
+#print axioms Txdbus.Handshake2.own_bus_cookie_requires
 #print axioms Txdbus.Handshake2.Example.sha_length
 #print axioms Txdbus.Handshake2.Example.hyp
